@@ -321,6 +321,20 @@ func (w *World) tamperRawQuery(m *MsgSpec, sp *SPNode, s *Sent, q string) string
 					w.fire("tamper_swap_sigalg")
 				}
 			}
+		case "dsa_forge":
+			// a syntactically valid DSA signature value (ASN.1 SEQUENCE{1,1}) under a DSA algorithm URI, against whatever key is registered
+			var out []rawParam
+			for _, p := range ps {
+				if p.Key != "Signature" && p.Key != "SigAlg" {
+					out = append(out, p)
+				}
+			}
+			alg := "http://www.w3.org/2000/09/xmldsig#dsa-sha1"
+			if mod(tp.A, 2) == 1 {
+				alg = "http://www.w3.org/2009/xmldsig11#dsa-sha256"
+			}
+			ps = append(out, rawParam{"SigAlg", pctEncode(alg, m.Style.Enc)}, rawParam{"Signature", pctEncode("MAYCAQECAQE=", m.Style.Enc)})
+			w.fire("tamper_dsa_forge")
 		case "add_sigparams":
 			ps = append(ps, rawParam{"SigAlg", pctEncode(AlgRSASHA256, m.Style.Enc)}, rawParam{"Signature", pctEncode(base64.StdEncoding.EncodeToString([]byte("forged signature value")), m.Style.Enc)})
 			w.fire("tamper_add_sigparams")
